@@ -38,6 +38,10 @@ CLAIMED = {
         technique="complete enumeration of all 2^24 addresses with a hash-set injectivity oracle and an independent block table",
         text="Complete enumeration of all 2^24 addresses through the real tail() (and aircraft_information); registrations are collected in a hash map for injectivity and matched against the address-block table that the harness reads from patterns.json itself. thorough adds all other u32 arguments for totality.",
         note="Trusted: patterns.json as the block table (the property names it); country names are not compared (categories may override them); blocks without a prefix pattern are counted only."),
+    "C06": dict(engine=E1, design="4/C06",
+        technique="bounded exhaustive exploration of report histories (gap x parity x phase) per trajectory through the real stateful decoder; two-aircraft runs in all merge orders",
+        text="Bounded history exploration of the real cpr::decode_positions (which drives decode_position exactly as jet1090 / decode1090 do): for each of 348 (thorough 468) trajectories (12 start points at the equator, just below NL transitions, the 87-degree edge, near a pole, latitude zone edges, the antimeridian, southern mirrors; 3-8 headings; 0/30/120/140/250/700 kt; airborne, surface and landing-after-k phase plans; receiver reference absent or 0/20/40 NM away) every history of (gap, parity) steps of length <= 3 (thorough 4) over 9 (13) gaps straddling every window constant (-0.3 s swapped stamp, 0 duplicate, 0.4, 9.9/10/10.1, 30, 179.9/180/180.1, 600, 86400 s) plus the gaps after which the aircraft is exactly one airborne or surface CPR zone away (+-2 s), and length 4 (5) over the core gaps: 4.1e6 histories quick, 4.8e8 thorough. Each report is encoded from the trajectory position at its own time by a DO-260B encoder; every attached position must be within 25 m of that position. Two-aircraft runs: trajectory pairs x 128 sequence pairs x all 20 merge orders, solo and interleaved outputs must be identical.",
+        note="Trusted: the float DO-260B encoder (reports whose encoded latitude is within 1e-9 degree of an NL transition are fed but not judged); surface reports are only generated within 40 NM of a configured receiver reference and equatorward of 88.5 degrees (beyond that the surface format itself is ambiguous); decoded messages are built from decoder-produced templates with the CPR fields set (conformance with freshly decoded frames is checked at start-up)."),
     "C07": dict(engine=E1, design="4/C07",
         technique="exhaustive enumeration of the decoder's accepted message shapes over the shared frame space; strict JSON reader with duplicate-key detection and a finiteness-probing serde serializer",
         text="Every message accepted in the frame space of C01 (dispatch, headers, extended-squitter windows for every type code / subtype / control field, complete field sweeps, Comm-B frames: 7.0e6 accepted messages quick, all (DF, type code, member-set) shapes counted) is serialised with serde_json::to_string; the text must be one line, must be accepted by a hand-written strict RFC 8259 reader that rejects duplicate keys at every nesting level, a serde Serializer written for the purpose must meet no non-finite float, df must equal the 5 leading bits and icao24 the AA field or the CRC overlay recomputed bit-serially, and the TimedMessage form must keep the frame as lowercase hex, contain every member of the message, and re-decode to the same JSON.",
